@@ -183,7 +183,7 @@ func propC14(c *Check) {
 			a := wc.Common().Args[0]
 			d = d || Has(ConstStr("mixin-aggregate-coefficient-v1"))(a)
 			t = t || Param("transcript")(a)
-			ix = ix || Has(func(v ssa.Value) bool { al, ok := v.(*ssa.Alloc); return ok && al.Comment == "idx" })(a)
+			ix = ix || Has(func(v ssa.Value) bool { al, ok := v.(*ssa.Alloc); return ok && allocIs(al, "idx") })(a)
 			k = k || Has(Path(Param("signer"), "public"))(a)
 		}
 		idxFilled := len(findCalls(f, "(encoding/binary.bigEndian).PutUint32")) == 1
